@@ -45,6 +45,7 @@ class Eval:
             if n > 1 or f.partial_defs(l):
                 self.multi.add(l)
         self._mut = None
+        self.path = None
 
     # ---------------------------------------------------------------- reaching definitions (multi-def locals)
     def _reaching(self):
@@ -89,9 +90,25 @@ class Eval:
         return self._rd
 
     def rd(self, l, pt):
-        """definitions of multi-def local l reaching point pt=(block, stmt index | 'T')"""
+        """definitions of multi-def local l reaching point pt=(block, stmt index | 'T').
+        With a concrete path set (self.path, a list of blocks ending at the site) the answer is the LAST definition on
+        that path before pt, if there is one."""
         IN, gen = self._reaching()
         b, i = pt
+        if self.path and b in self.path:
+            k = len(self.path) - 1 - self.path[::-1].index(b)
+            stmts = self.f.stmts(b)
+            end = len(stmts) if i == "T" else i
+            for j in range(end - 1, -1, -1):
+                st = stmts[j]
+                if "d" in st and st["d"]["l"] == l:
+                    return frozenset([(b, j) if not st["d"]["p"] else ("partial", b, j)])
+            for q in range(k - 1, -1, -1):
+                pb = self.path[q]
+                if l in gen[pb]:
+                    return frozenset([gen[pb][l]])
+            b0 = self.path[0]
+            return IN[b0].get(l, frozenset(["entry"]))
         cur = IN[b].get(l, frozenset(["entry"]))
         stmts = self.f.stmts(b)
         end = len(stmts) if i == "T" else i
@@ -909,21 +926,21 @@ class Prover:
         goals = self.site_goals(b, L)
         facts = self.facts_at(b, L)
         res = []
-        for g, text in goals:
+        for gi, (g, text) in enumerate(goals):
             how = "dominating conditions"
             ok = self.prove(g, facts, L)
             if not ok:
-                ok = self.prove_on_paths(b, g, facts, L)
+                ok = self.prove_on_paths(b, g, facts, L, goal_index=gi)
                 how = "every path"
             if not ok and invariants is not None:
                 extra = invariants(self, L, facts)
                 if extra:
-                    ok = self.prove(g, facts + extra, L) or self.prove_on_paths(b, g, facts + extra, L)
+                    ok = self.prove(g, facts + extra, L) or self.prove_on_paths(b, g, facts + extra, L, goal_index=gi)
                     how = "storage invariant"
             res.append((text, ok, show_lin(g) + " >= 0", how if ok else None))
         return {"goals": res, "facts": [show_lin(l) + " " + rel for l, rel, _ in facts]}
 
-    def prove_on_paths(self, b, goal, dom_facts, L, cap=400):
+    def prove_on_paths(self, b, goal, dom_facts, L, cap=400, goal_index=None):
         """path-sensitive attempt: for some dominator D of the site with an acyclic region D..site, the goal holds on
         every path D -> site under the conditions taken along that path (or the path is contradictory)"""
         f = self.f
@@ -954,4 +971,24 @@ class Prover:
                 continue
             if all(self.prove(goal, dom_facts + self.path_facts(p, b, L), L) for p in paths):
                 return True
+            # same, with the values of reassigned locals resolved along each path
+            if goal_index is not None:
+                ok = True
+                for p in paths:
+                    self.ev.path = p
+                    try:
+                        Lp = Lin(self.ev)
+                        gs = self.site_goals(b, Lp)
+                        if goal_index >= len(gs):
+                            ok = False
+                            break
+                        facts_p = self.path_facts(p, b, Lp)
+                        self._merge(Lp, L)
+                        if not self.prove(gs[goal_index][0], dom_facts + facts_p, Lp):
+                            ok = False
+                            break
+                    finally:
+                        self.ev.path = None
+                if ok:
+                    return True
         return False
